@@ -79,3 +79,21 @@ let handle (x : t) : (int * string list) option =
   match x with
   | L [I 15; k; objs; ids] -> Some (cmd_typed k objs ids)
   | _ -> handle x
+
+(* (14 tag (src objs) (dst objs) (join ids))  tag: 12 service, 13 rc, 14 workload, 15 ingress->services
+   the join's cache at quiescence = join_view of the selection filter *)
+let cmd_join tag srcs dsts ids =
+  let srcs = d_list d_obj srcs and dsts = d_list d_obj dsts in
+  let ids = List.sort compare (d_list d_int ids) in
+  let ffn = match d_int tag with
+    | 12 -> service_pods_filter | 13 -> rc_pods_filter | 14 -> workload_pods_filter | 15 -> ingress_services_filter
+    | _ -> bad "join tag" in
+  let m = List.sort compare (List.map (fun o -> int_of_n o.o_id) (join_view ffn srcs dsts)) in
+  if m = ids then (List.length dsts, [])
+  else (List.length dsts, [Printf.sprintf "kind=joinview impl=[%s] model=[%s]"
+                             (String.concat "," (List.map string_of_int ids)) (String.concat "," (List.map string_of_int m))])
+
+let handle (x : t) : (int * string list) option =
+  match x with
+  | L [I 14; tag; s; d; ids] -> Some (cmd_join tag s d ids)
+  | _ -> handle x
